@@ -19,7 +19,9 @@ const (
 var Top = Interval{NegInf, PosInf}
 
 func (a Interval) Within(lo, hi int64) bool { return a.Lo >= lo && a.Hi <= hi }
-func (a Interval) IsConst() (int64, bool)   { return a.Lo, a.Lo == a.Hi && a.Lo != NegInf && a.Lo != PosInf }
+func (a Interval) IsConst() (int64, bool) {
+	return a.Lo, a.Lo == a.Hi && a.Lo != NegInf && a.Lo != PosInf
+}
 
 func addSat(a, b int64) int64 {
 	if a == NegInf || b == NegInf {
